@@ -310,6 +310,9 @@ def run(chk):
     chk.ob("R7.never_blocks", fn, "the poll loop uses only try_recv / try_iter / recv_nonblocking", True)
     from . import c11
     c11.probe_only_first(chk, prog, "R1.whole_messages")
+    # "every message a client sends is delivered": nothing on the poll's read path takes bytes off the socket that it does not use (C10's rule)
+    from . import c10 as _c10
+    _c10.frame_integrity(chk, prog, "R1.frame_fields", "R1.no_read_ahead")
     # sends are write_all on a socket that must be blocking: the non-blocking probe has to put the socket back on every return
     c11.blocking_mode_restored(chk, prog, rule="R3.sends_on_blocking_socket")
     # ---- R5 shutdown
